@@ -430,6 +430,24 @@ func (fv *FuncVC) evalFuncCall(call *ast.CallExpr, f *types.Func, st *State) []V
 		return out
 	}
 	recv, args := fv.evalArgs(call, f, st)
+	if fv.fi.Contract != nil && fv.mode == "full" && len(fv.fi.Contract.CallArgs) > 0 {
+		k := fv.nextOrd("callarg:" + full)
+		for _, ca := range fv.fi.Contract.CallArgs {
+			if ca.Callee == full && ca.Ord == k {
+				if ca.Idx >= len(args) {
+					specFail("callarg %s@%d: no argument %d", full, k, ca.Idx)
+				}
+				want := fv.specEval(ca.Expr, fv.specScope(st, fv.entry, false))
+				if args[ca.Idx].S == SRef && want.S != SRef && want.GoT != nil {
+					// the argument was boxed into an interface parameter: box the expected value the same way
+					if at := fv.typeOf(call.Args[ca.Idx]); at != nil {
+						want = fv.box(Val{want.T, want.S, at}, at, types.NewInterfaceType(nil, nil), st)
+					}
+				}
+				fv.oblig(st, "post", fmt.Sprintf("callarg:%s@%d:%d", full, k, ca.Idx), fmt.Sprintf("argument %d of call %d to %s is %s", ca.Idx, k, full, ca.Text), fv.eqVals(args[ca.Idx], want))
+			}
+		}
+	}
 	// 0. method of a repository interface declared pure (`//@ puremethod I.M`): an uninterpreted function of the receiver
 	if key, ok := fv.pureMethodKey(f); ok {
 		fv.usedExterns["puremethod "+key+": every implementation is assumed to be a pure function of the node"] = true
